@@ -236,7 +236,7 @@ def eval_any(case, rng):
             c = tlssynth.build_conn(tlssynth.Spec(version=0x0303, suite=0x009C, app=[("c", b"hello")]), rng)
             noise.append(scene.tls_on_other_port(c, rng, k))
     items = scene.merge(flows + noise, rng, rng.choice(["random", "bursty", "concat"])) if flows or noise else []
-    fault = rng.choice(["none", "none", "delete", "truncate", "nokeys", "somekeys", "wrongkeys", "flip", "headless", "snap", "stale"])
+    fault = rng.choice(["none", "none", "delete", "truncate", "nokeys", "somekeys", "wrongkeys", "flip", "headless", "snap", "stale", "cutkeys"])
     if items and fault == "stale":
         # keep-alive probes and retransmissions that start inside an earlier segment: segments that lie (partly) below what their direction has already delivered
         tls = [k for k, f in enumerate(flows) if f.kind == "tls"]
@@ -276,6 +276,12 @@ def eval_any(case, rng):
         lines = [" ".join(l.split()[:2] + [rng.randbytes(len(l.split()[2]) // 2).hex()]) for l in lines]
     rng.shuffle(lines)
     keys = ("\n".join(lines) + "\n").encode() if lines else b"# empty\n"
+    if fault == "cutkeys" and lines:
+        # a key log that is still being written: the text ends somewhere inside its last line (inside the label, the client random, after an odd or an even number
+        # of the secret's digits)
+        keep = rng.randrange(0, len(lines))
+        last = lines[keep]
+        keys = ("\n".join(lines[:keep] + [last[:rng.randrange(1, len(last))]])).encode()
     extra = []
     opts = []
     for o in ("-a", "-m", "-c", "-g", "-p", "-d"):
